@@ -241,6 +241,14 @@ for _nm, _b0, _b4 in (("df11", 0x5d, -1), ("df19", 0x98, -1), ("df24", 0xc5, -1)
 add("reader_any_native", "adsb_deku", R + "obl_reader_any", props=["native-oracle"], stubs=[], tier="native",
     domain="native oracle: any buffer, any schedule", functions=RD_FN)
 
+add("leaf_ident_loop", "adsb_deku", L + "obl_ident_loop", props=["C08", "C01"], unwind=10,
+    domain="all 2^48 six-byte buffers; mechanically extracted character loop of aircraft_identification_read",
+    functions=["aircraft_identification_read (slice: character loop)"], timeout=900)
+for _len in range(9):
+    add("leaf_ident_tail_%d" % _len, "adsb_deku", L + "obl_ident_tail", args="%d" % _len, props=["C08", "C01"], unwind=12,
+        domain="all 64^%d code vectors of length %d; mechanically extracted String statement of aircraft_identification_read" % (_len, _len),
+        functions=["aircraft_identification_read (slice: table mapping)"], timeout=900, tier="quick" if _len in (0, 1, 7, 8) else "thorough")
+
 
 def select(prop, tier):
     out = []
